@@ -308,3 +308,136 @@ func init() {
 		return out
 	}
 }
+
+const fnRingContainsSeg = pkgGeom + ".ringContainsSegment"
+const fnRingIntersectsSeg = pkgGeom + ".ringIntersectsSegment"
+
+func leafFamily(tier string) [][]ipt {
+	var fam [][]ipt
+	for _, r := range curatedRings {
+		fam = append(fam, r, reverseRing(r))
+	}
+	fam = append(fam, latticeRings(3, 2, false)...)
+	if tier == "thorough" {
+		fam = append(fam, latticeRings(4, 2, false)...)
+		fam = append(fam, latticeRings(3, 3, false)...)
+	}
+	return fam
+}
+
+func leafJobs(tier string, fn, allow int) []Job {
+	var out []Job
+	c := []string{fnRaycast, fnSegSeg}
+	for i, r := range leafFamily(tier) {
+		params := append([]int{fn, allow, 1, 0}, ringParams(r)...)
+		out = append(out, Job{Pkg: "geometry", Harness: "H_Leaf_RingSeg", Params: params, Timeout: 120, Scale: true, Contracts: c, NoCover: i > 3})
+	}
+	// index kinds and the unclosed encoding on the curated concave shapes
+	for _, r := range curatedRings[:4] {
+		for _, v := range [][2]int{{0, 1}, {0, 2}, {1, 1}, {1, 2}, {0, 0}} {
+			params := append([]int{fn, allow, v[0], v[1]}, ringParams(r)...)
+			out = append(out, Job{Pkg: "geometry", Harness: "H_Leaf_RingSeg", Params: params, Timeout: 120, Scale: true, Contracts: c, NoCover: true})
+		}
+	}
+	return out
+}
+
+func segLemmaJobs() []Job {
+	out := raycastLemmaJobs()
+	out = append(out, Job{Pkg: "geometry", Harness: "H_K_SegSeg", Timeout: 120, Scale: true, Contracts: []string{fnRaycast}, ForkIn: []string{fnSegSeg}, Combine: true,
+		Note: "lemma relied on by the IntersectsSegment contract: path-wise over IntersectsSegment"})
+	out = append(out, Job{Pkg: "geometry", Harness: "H_K_SpecSym", Timeout: 120, Scale: true, Note: "lemma: the segment-intersection spec is symmetric"})
+	out = append(out, Job{Pkg: "geometry", Harness: "H_K_SegSegBox", Timeout: 120, Scale: true, Note: "lemma instantiated where the implementation pre-filters by box"})
+	return out
+}
+
+func apiJobs(tier string) []Job {
+	var out []Job
+	c := []string{fnRaycast, fnSegSeg, fnRingContainsSeg, fnRingIntersectsSeg}
+	hole := []ipt{{1, 1}, {3, 1}, {1, 3}}
+	big := []ipt{{0, 0}, {4, 0}, {4, 4}, {0, 4}}
+	shapes := curatedRings[:6]
+	for i, r := range shapes {
+		for m := 2; m <= 3; m++ {
+			if m == 3 && tier != "thorough" && i > 1 {
+				continue
+			}
+			params := append([]int{m, 0, 0}, ringParams(r)...)
+			out = append(out, Job{Pkg: "geometry", Harness: "H_API_PolyLine", Params: params, Timeout: 120, Scale: true, Contracts: c, NoCover: i > 0})
+		}
+	}
+	for m := 2; m <= 3; m++ {
+		for kind := 0; kind <= 2; kind++ {
+			if kind > 0 && m == 3 {
+				continue
+			}
+			params := append(append([]int{m, 1, kind}, ringParams(big)...), ringParams(hole)...)
+			out = append(out, Job{Pkg: "geometry", Harness: "H_API_PolyLine", Params: params, Timeout: 120, Scale: true, Contracts: c, NoCover: true})
+		}
+	}
+	tri := []ipt{{0, 0}, {2, 0}, {0, 2}}
+	sq1 := []ipt{{0, 0}, {1, 0}, {1, 1}, {0, 1}}
+	pairs := [][2][]ipt{{tri, tri}, {curatedRings[0], tri}, {curatedRings[0], sq1}, {tri, curatedRings[0]}, {curatedRings[1], sq1}, {curatedRings[4], curatedRings[7]}}
+	if tier == "thorough" {
+		pairs = append(pairs, [2][]ipt{curatedRings[2], sq1}, [2][]ipt{curatedRings[3], tri}, [2][]ipt{curatedRings[1], curatedRings[1]}, [2][]ipt{curatedRings[8], sq1})
+	}
+	for i, pr := range pairs {
+		params := append(append([]int{0}, ringParams(pr[0])...), ringParams(pr[1])...)
+		out = append(out, Job{Pkg: "geometry", Harness: "H_API_PolyPoly", Params: params, Timeout: 120, Scale: true, Contracts: c, NoCover: i > 0})
+	}
+	for i, r := range []([]ipt){tri, curatedRings[0], curatedRings[1]} {
+		params := append([]int{0, 1, 1}, ringParams(r)...)
+		out = append(out, Job{Pkg: "geometry", Harness: "H_API_Rect", Params: params, Timeout: 120, Scale: true, Contracts: c, NoCover: i > 0})
+	}
+	out = append(out, Job{Pkg: "geometry", Harness: "H_API_RectLine", Params: []int{2, 2, 1}, Timeout: 120, Scale: true, Contracts: c})
+	out = append(out, Job{Pkg: "geometry", Harness: "H_API_RectLine", Params: []int{3, 2, 1}, Timeout: 120, Scale: true, Contracts: c, NoCover: true})
+	for _, mk := range [][3]int{{2, 2, 0}, {3, 2, 0}, {2, 3, 0}, {3, 3, 0}, {3, 2, 1}, {3, 2, 2}} {
+		out = append(out, Job{Pkg: "geometry", Harness: "H_API_LineLine", Params: []int{mk[0], mk[1], mk[2]}, Timeout: 120, Scale: true, Contracts: []string{fnRaycast, fnSegSeg}, NoCover: mk[0]+mk[1] > 4})
+	}
+	lines := [][]ipt{{{0, 0}, {4, 0}}, {{0, 0}, {1, 0}, {2, 0}}, {{0, 0}, {2, 0}, {2, 2}}, {{0, 0}, {2, 0}, {1, 0}, {3, 0}}, {{0, 0}, {2, 0}, {1, 0}}, {{0, 0}, {2, 2}, {4, 0}, {2, 2}}}
+	for i, l := range lines {
+		for m := 2; m <= 3; m++ {
+			params := append([]int{m, 0}, ringParams(l)...)
+			out = append(out, Job{Pkg: "geometry", Harness: "H_API_LineInLine", Params: params, Timeout: 120, Scale: true, Contracts: []string{fnRaycast, fnSegSeg}, NoCover: i > 0})
+		}
+	}
+	return out
+}
+
+func filterLabels(jobs []Job) []Job { return jobs }
+
+func init() {
+	shared := PropMeta{
+		Outside: []string{"both operands fully symbolic at once (z3 does not decide triangle-vs-triangle within minutes): one operand is always a concrete lattice shape (leaf jobs: every simple triangle on [0,2]^2 plus curated concave shapes; thorough adds every simple quadrilateral on [0,2]^2 and triangle on [0,3]^2) and the other is a fully symbolic segment / line, or a concrete shape under an arbitrary real translation",
+			"polygon-with-holes versus polygon (hole-versus-hole oracle not validated): holes are exercised against points and lines only",
+			"API-level jobs replace ringContainsSegment / ringIntersectsSegment by their leaf oracles (contract mode): the real leaf code is decided by the leaf jobs, with the listed known findings"},
+		Stubs:       []string{"Segment.Raycast, Segment.IntersectsSegment -> specs (proved in-run by H_K_Raycast, H_K_SegSeg path-wise, H_K_SpecSym)", "ringContainsSegment / ringIntersectsSegment -> leaf oracles in the API-level jobs only", "segment-pair box lemma instances assumed (proved in-run by H_K_SegSegBox)"},
+		Assumptions: append(append([]string{}, commonAssumptions...), "the leaf oracles (DESIGN Appendix C) are adequate for simple rings: validated at design time against arrangement-based references on 140 000 random lattice cases (design/oracle_*_validation.py)"),
+	}
+	m2 := shared
+	m2.Bounds = map[string]interface{}{
+		"quick":    "leaf ringIntersectsSegment(closed): 106 concrete rings x ALL real segments; API: polygon (6 shapes, one with a hole, three index kinds) x symbolic line of 2..3 points; 6 polygon pairs and 3 polygon-rect pairs under ALL real translations; rect x symbolic line; line x line with 2..3 points each fully symbolic; both operand orders",
+		"thorough": "leaf family extended to every simple lattice quadrilateral on [0,2]^2 and triangle on [0,3]^2 (about 700 rings); 10 polygon pairs",
+	}
+	propMeta["C02"] = m2
+	m3 := shared
+	m3.Bounds = map[string]interface{}{
+		"quick":    "leaf ringContainsSegment (closed and open) and ringIntersectsSegment(open): 106 concrete rings x ALL real segments, strict outside the listed contact classes; API composition: polygon contains line / polygon / rect, rect contains line / polygon, line contains line (6 concrete lines x symbolic lines of 2..3 points)",
+		"thorough": "as C02 thorough",
+	}
+	propMeta["C03"] = m3
+	jobTables["C02"] = func(tier string) []Job {
+		out := segLemmaJobs()
+		out = append(out, leafJobs(tier, 0, 1)...)
+		out = append(out, apiJobs(tier)...)
+		return out
+	}
+	jobTables["C03"] = func(tier string) []Job {
+		out := segLemmaJobs()
+		out = append(out, leafJobs(tier, 1, 1)...)
+		out = append(out, leafJobs(tier, 1, 0)...)
+		out = append(out, leafJobs(tier, 0, 0)...)
+		out = append(out, apiJobs(tier)...)
+		return out
+	}
+}
